@@ -247,7 +247,7 @@ def shard(cases, n):
     return [s for s in shards if s]
 
 
-def run_binary_on_cases(binary, cases, tag, workdir, per_shard_timeout=900, nshards=None):
+def run_binary_on_cases(binary, cases, tag, workdir, per_shard_timeout=400, nshards=None):
     """Run `binary casefile` on shards in parallel. Returns (dict key->(op, rest), problems)."""
     os.makedirs(workdir, exist_ok=True)
     shards = shard(cases, nshards or NPROC)
